@@ -128,6 +128,65 @@ Proof.
   now destruct (upd_conn s c (with_errs v rest)) as (_ & _ & O & _).
 Qed.
 
+(* a returned message is reported once whatever the state of the channel *)
+Theorem chan_check_msg_once s c v e rest :
+  conn_healthy s -> c_errs v = e :: rest -> e_kind e = EMsg ->
+  exists s', chan_check s c v = (s', with_errs v rest, Raise e) /\
+             conn_healthy s' /\ s_out s' = s_out s.
+Proof.
+  intros Hh He Hk. unfold chan_check. rewrite (conn_check_ok s Hh), He, Hk. cbn [ekind_eqb].
+  rewrite Bool.orb_true_r. eexists. split; [reflexivity|].
+  destruct (upd_conn s c (with_errs v rest)) as (A & B & O & _). destruct Hh as [H1 H2].
+  split; [split; congruence|exact O].
+Qed.
+
+(* the reason a channel was closed for stays: every later check raises it again *)
+Theorem chan_check_reason_stays s c v e rest :
+  conn_healthy s -> c_errs v = e :: rest -> e_kind e <> EMsg -> c_state v <> OPEN ->
+  exists s', chan_check s c v = (s', v, Raise e) /\ conn_healthy s' /\ s_out s' = s_out s.
+Proof.
+  intros Hh He Hk Hst. unfold chan_check. rewrite (conn_check_ok s Hh), He.
+  assert (E1 : st_eqb (c_state v) OPEN = false) by (destruct (c_state v); try reflexivity; now elim Hst).
+  assert (E2 : ekind_eqb (e_kind e) EMsg = false) by (destruct (e_kind e); try reflexivity; now elim Hk).
+  rewrite E1, E2. cbn [orb]. eexists. split; [reflexivity|].
+  destruct (upd_conn s c v) as (A & B & O & _). destruct Hh as [H1 H2].
+  split; [split; congruence|exact O].
+Qed.
+
+(* n checks in a row on the object the application holds *)
+Fixpoint checks (n : nat) (s : sys) (c : nat) (v : chan) : sys * chan * list (res unit) :=
+  match n with
+  | O => (s, v, [])
+  | S n' => let '(s1, v1, r) := chan_check s c v in
+            let '(s2, v2, rs) := checks n' s1 c v1 in (s2, v2, r :: rs)
+  end.
+
+(* Returns still queued when the broker closes the channel: each is raised once, in
+   order, then the broker's reason - and the reason is what every later call raises *)
+Theorem close_reason_reached : forall msgs reason s c v k,
+  conn_healthy s -> c_state v = CLOSED -> c_errs v = msgs ++ [reason] ->
+  Forall (fun e => e_kind e = EMsg) msgs -> e_kind reason = EChan ->
+  exists s' v', checks (length msgs + k) s c v =
+                  (s', v', map (fun e => Raise e) msgs ++ repeat (Raise reason) k) /\
+                c_errs v' = [reason] /\ c_state v' = CLOSED /\ s_out s' = s_out s.
+Proof.
+  induction msgs as [|m msgs IH]; intros reason s c v k Hh Hst He Hm Hr.
+  - cbn [length Nat.add map app]. cbn [app] in He. revert s Hh.
+    induction k as [|k IHk]; intros s Hh.
+    + cbn [checks repeat app map]. eexists _, _. repeat split; auto.
+    + destruct (chan_check_reason_stays s c v reason [] Hh He) as (s1 & E & Hh1 & O1).
+      1: { rewrite Hr. discriminate. } 1: { rewrite Hst. discriminate. }
+      destruct (IHk s1 Hh1) as (s' & v' & E' & A & B & O).
+      cbn [checks repeat]. rewrite E, E'. eexists _, _. split; [reflexivity|].
+      repeat split; auto. congruence.
+  - inversion Hm as [|? ? Hm1 Hm2]; subst.
+    destruct (chan_check_msg_once s c v m (msgs ++ [reason]) Hh He Hm1) as (s1 & E & Hh1 & O1).
+    destruct (IH reason s1 c (with_errs v (msgs ++ [reason])) k Hh1 Hst eq_refl Hm2 Hr)
+      as (s' & v' & E' & A & B & O).
+    cbn [length Nat.add checks map app]. rewrite E, E'. eexists _, _. split; [reflexivity|].
+    repeat split; auto. congruence.
+Qed.
+
 (* a closed channel: every operation that would write raises first and writes nothing *)
 Theorem chan_write_closed s c v ws :
   conn_healthy s -> c_state v = CLOSED ->
